@@ -29,7 +29,9 @@ type Plan struct {
 	// Clock is the simulated wall clock (unix seconds) handed out by Now(); it advances by
 	// one second per read so that two reads never tie.
 	Clock int64  `json:"clock,omitempty"`
-	Pid   int    `json:"pid,omitempty"`
+	// Goroutines: native (default) | inline | deferred — see goroutines.go.
+	Goroutines string `json:"goroutines,omitempty"`
+	Pid        int    `json:"pid,omitempty"`
 	Host  string `json:"host,omitempty"`
 }
 
